@@ -70,6 +70,24 @@ def _known_functions():
     return _KNOWN_FUNCS
 
 
+def is_new_function(func) -> bool:
+    """func did not exist when the checks were last validated (an extracted helper): it is always inlined and, for every rule
+    that asks 'who makes this call', it counts as part of its caller."""
+    known = _known_functions()
+    return bool(known) and (func.module.name + ":" + func.qualname) not in known
+
+
+def called_from(rec, func) -> bool:
+    """The call recorded in rec is made by func itself or by a helper extracted from it (see is_new_function)."""
+    cf = rec.caller.func if rec.caller is not None else None
+    return cf is func or (cf is not None and is_new_function(cf))
+
+
+def in_function(rec_func, func) -> bool:
+    """A loop / statement recorded in rec_func belongs to func: it is func itself or a helper extracted from it."""
+    return rec_func is func or (rec_func is not None and is_new_function(rec_func))
+
+
 class Event:
     def __init__(self, kind, data, where):
         self.kind = kind
@@ -146,6 +164,18 @@ class Ctx:
         self.loop_stack = []
 
     def decide(self, cond, where=None) -> bool:
+        dry = getattr(self, "dry", None)
+        if dry is not None:
+            # trial execution of a loop body (see LoopMixin.invariant_state): decisions follow a private script, nothing is recorded
+            j = dry["pos"]
+            dry["pos"] += 1
+            if j < len(dry["script"]):
+                d = dry["script"][j]
+            else:
+                d = True
+                dry["script"].append(True)
+            self.refine(cond, d)
+            return d
         i = len(self.trace)
         if i < len(self.prefix):
             d = self.prefix[i]
